@@ -4,6 +4,7 @@ import (
 	"fmt"
 	"sync"
 	"testing"
+	"time"
 
 	"github.com/elementsproject/peerswap/swap"
 
@@ -40,7 +41,11 @@ func lcSweep(r *Run, chains []string, variant string, drain bool, setup func(h *
 		if !r.Thorough() && n > 40 {
 			step = 2
 		}
-		for k := int64(1); k <= n; k += step {
+		for k := int64(1); k <= n; k++ {
+			// quick tier: every crossing of the negotiation phase, every second one afterwards
+			if step == 2 && k > 16 && k%2 == 0 {
+				continue
+			}
 			for _, fl := range []string{"before", "after"} {
 				cc := c
 				cc.crashAt, cc.flavor = k, fl
@@ -96,6 +101,20 @@ func c15Judge(r *Run, h *lcHist) {
 			}
 		}
 	}
+	// (c') ... or after the node itself told the peer that the swap is cancelled
+	var cancelSent int64
+	for i, m := range h.sends {
+		if m.Type == ref.MsgCancel && cancelSent == 0 && i < len(h.sendSeq) {
+			cancelSent = h.sendSeq[i]
+		}
+	}
+	if cancelSent != 0 {
+		for i, s := range h.paySeq {
+			if s > cancelSent {
+				r.Violate("no-pay-after-cancel", fmt.Sprintf("C15|pay-after-cancel-sent|%s|%s", tag, h.pays[i].Op), det(fmt.Sprintf("pay crossing %+v after the node had sent cancel for this swap", h.pays[i])), traceOf(h.p.w))
+			}
+		}
+	}
 	// (d) re-sent requests / agreements carry the same parameters
 	first := map[int][]byte{}
 	for _, m := range h.sends {
@@ -125,6 +144,61 @@ func TestC15(t *testing.T) {
 	r.Rule = "crash-point enumeration: honest two-node swaps (4 roles × 2 chains); the victim is killed at every boundary crossing (store write or service call) before and after the effect, restarted through Start+RecoverSwaps, and the peer continues; offline oracle over the history: <=1 funding tx, <=1 settled payment per hash, no pay crossing after a committed SwapCanceled, re-sent request/agreement byte-identical. distinct = (chain, role, crash op, flavour, final state)"
 	r.Assumptions = []string{"a second completion of the same invoice is ultimately prevented by the Lightning node's own de-duplication, which the ledger models (CLN-like personality)", "process crashes only (bbolt NoSync): everything written before the kill is on disk"}
 	pts := lcSweep(r, []string{"btc", "lbtc"}, "happy", false, nil, func(h *lcHist) { c15Judge(r, h) })
+	// continuation "the peer's answer is late": the agreement is held back until the initiator's negotiation timer
+	// has fired and it has sent cancel; the initiator is killed around that cancel (every crossing from the timer
+	// on), restarted, and only then the agreement arrives
+	late := 0
+	for ci, ch := range []string{"btc", "lbtc"} {
+		for ti, typ := range []string{"out", "in"} {
+			run := func(crashAt int64, flavor, name string) *lcHist {
+				hold := true
+				lc := lcCase{chain: ch, typ: typ, victim: "alice", variant: "late-agreement", crashAt: crashAt, flavor: flavor, name: name}
+				return lcRunCustom(r.Seed*733+int64(ci*2+ti)+1, lc, func(h *lcHist) {
+					h.victim.RecordCrossings = true
+					h.p.w.Sched = func(w *sim.World, it *sim.QView) sim.Decision {
+						if hold && it.Kind == "msg" && (it.MsgType == ref.MsgSwapOutAgreement || it.MsgType == ref.MsgSwapInAgreement) {
+							return sim.Defer
+						}
+						return sim.Deliver
+					}
+				}, func(h *lcHist) {
+					h.p.w.Advance(11 * time.Minute)
+					h.settle()
+					hold = false
+					h.settle()
+					h.p.mine(2)
+					h.settle()
+				})
+			}
+			base := run(0, "", "")
+			r.Eval()
+			c15Judge(r, base)
+			// crossings from the first cancel send backwards/forwards by two
+			at := -1
+			for k, op := range base.ops {
+				if op == fmt.Sprintf("msg.send:%d", ref.MsgCancel) {
+					at = k
+					break
+				}
+			}
+			base.p.w.Close()
+			if at < 0 {
+				r.CountIn("late_agreement_without_cancel", ch+"/"+typ)
+				continue
+			}
+			for k := max(0, at-2); k <= min(len(base.ops)-1, at+2); k++ {
+				for _, fl := range []string{"before", "after"} {
+					h := run(int64(k+1), fl, base.ops[k])
+					r.Eval()
+					late++
+					r.Seen(fmt.Sprintf("%s/%s/late-agreement/crash-%s:%s/final=%s", ch, h.victimRole(), fl, base.ops[k], h.p.state(h.victim)))
+					c15Judge(r, h)
+					h.p.w.Close()
+				}
+			}
+		}
+	}
+	r.Extra["late_agreement_histories"] = late
 	r.Extra["crash_points_enumerated"] = pts
 	r.Extra["exhaustive"] = r.Thorough()
 	r.Sample(map[string]any{"case": "btc/out victim=alice crash after btc.preimage", "meaning": "taker killed after its claim tx was accepted by the chain, before the result was stored"})
@@ -201,7 +275,11 @@ func TestC13(t *testing.T) {
 	defer r.Finish()
 	r.Rule = "crash-point enumeration over both Liquid taker roles (swap-out sender, swap-in receiver): victim killed at every store write / service call (before and after the effect), restarted, peer continues and later events are replayed; oracle replays the victim's ordered log of committed records (re-read from bbolt), outgoing messages and payment attempts. Additional histories: Liquid tip moving between creation and sending, height lookup failing. distinct = (role, crash op, flavour, pubkey revealed, anchor committed)"
 	r.Assumptions = []string{"committed = what an independent bbolt read transaction returns right after the write"}
-	pts := lcSweep(r, []string{"lbtc"}, "happy", false, nil, func(h *lcHist) { c13Judge(r, h) })
+	// Liquid blocks keep arriving while the killed taker is down: an anchor that is recomputed on recovery differs
+	mineWhileDown := func(h *lcHist) {
+		h.whileDown = func(h *lcHist) { h.p.w.LBTC.Mine(7) }
+	}
+	pts := lcSweep(r, []string{"lbtc"}, "happy", false, mineWhileDown, func(h *lcHist) { c13Judge(r, h) })
 	// extra histories: height lookup failing at creation => no pubkey may go out; tip moving during negotiation
 	for i, v := range []string{"alice", "bob"} {
 		for _, mode := range []string{"height-fails", "tip-moves"} {
